@@ -104,7 +104,10 @@ def _run_sym(unit, out, obligation_timeout_ms):
       for cname, cfn in case.ensures.items():
         outs = []
         ectx = Ctx(None, None, None, lambda s2, e: outs.append((s2, ("exc", e))))
-        I.call_value(cfn, [v], {}, s, ectx, lambda s2, r2: outs.append((s2, ("val", r2))))
+        # every clause is evaluated on its OWN copy of the exit state: evaluation forks by adding path conditions to
+        # the state in place, which must not leak into the next clause (found 2026-09-25 by a seeded change: all
+        # clauses after the first forking one were checked under the first fork's assumption)
+        I.call_value(cfn, [v], {}, s.copy(), ectx, lambda s2, r2: outs.append((s2, ("val", r2))))
         for s2, (kind, r2) in outs:
           if kind == "exc":
             # the clause itself raised on this path: counts as not established
@@ -134,7 +137,7 @@ def _run_sym(unit, out, obligation_timeout_ms):
       else:
         outs = []
         ectx = Ctx(None, None, None, lambda s2, e2: outs.append((s2, False)))
-        I.call_value(allowed, [], {}, s, ectx, lambda s2, r2: outs.append((s2, r2)))
+        I.call_value(allowed, [], {}, s.copy(), ectx, lambda s2, r2: outs.append((s2, r2)))
         for s2, r2 in outs:
           tv = []
           I.truth(r2, s2, ectx, lambda s3, t: tv.append((s3, t))) if r2 is not False else tv.append((s2, False))
@@ -143,7 +146,7 @@ def _run_sym(unit, out, obligation_timeout_ms):
       for cname, cfn in case.exc_ensures.items():
         outs = []
         ectx = Ctx(None, None, None, lambda s2, e2: outs.append((s2, False)))
-        I.call_value(cfn, [e.cls], {}, s, ectx, lambda s2, r2: outs.append((s2, r2)))
+        I.call_value(cfn, [e.cls], {}, s.copy(), ectx, lambda s2, r2: outs.append((s2, r2)))
         for s2, r2 in outs:
           I.check_obligation(s2, r2 if r2 is not False else False, "excpost." + cname, kind="post")
     # aggregate
